@@ -422,6 +422,27 @@ func c06FixedList() []c06Fixed {
 		add("domain_block_operand", "", "def p { def c { x = 1 } var v = c\n print "+strings.ReplaceAll(e, "c", "v")+" }")
 	}
 	add("domain_block_operand", "", "def p { def c { x = 1 } print c\n z = c\n def d { w = c } }")
+	// operators refusing their operands while the operands are hostile strings (what an error message might quote):
+	// runs of continuation bytes, cut characters, 0xFF, long multi-byte text, via escapes and via repetition
+	for _, hs := range []string{`"\x80" * 40`, `"` + rep(`\x80`, 40) + `"`, `"` + rep(`\xbf`, 33) + `"`, `"a` + rep(`\x80`, 64) + `"`, `"` + rep(`\xff`, 100) + `"`, `"` + rep(`\xc3`, 50) + `"`,
+		`"` + rep(`\xf0\x9f\x98`, 20) + `"`, `"` + rep("é", 40) + `"`, `"` + rep("😀", 20) + `"`, `"` + rep("x", 31) + `é"`, `"` + rep("x", 32) + `\x80\x80"`, `""`, `"` + rep("%s%d%!", 20) + `"`, `"` + rep(`\x00`, 40) + `"`} {
+		for _, op := range []string{"-", "*", "/", "<", ">=", "=="} {
+			add("domain_hostile_string_operand", "", "print "+hs+" "+op+" 1")
+			add("domain_hostile_string_operand", "", "var s = "+hs+"\ndef b { x = nil "+op+" s }")
+		}
+		add("domain_hostile_string_operand", "", "print - "+hs)
+		add("domain_hostile_string_operand", "", "def b { x = + "+hs+" }")
+		add("domain_hostile_string_operand", "", "def b { s = "+hs+"; y = s < 1.5 }")
+	}
+	// unresolved identifiers next to keys of every length (what a hint might compare them with)
+	for _, kl := range []int{1, 2, 39, 40, 41, 42, 64, 255, 300} {
+		key := identOfLen(kl)
+		for _, id := range []string{"x", key + "x", key[:len(key)-1] + "y", identOfLen(40), identOfLen(41), identOfLen(300)} {
+			add("domain_unresolved_identifier_next_to_long_keys", "", "def p { "+key+" = 1\n z = "+id+" }")
+			add("domain_unresolved_identifier_next_to_long_keys", "", "def p { def c \""+strOfLen(kl, nil)+"\" {}\n z = "+id+" }")
+			add("domain_unresolved_identifier_next_to_long_keys", "", "def p { def "+key+" \""+strOfLen(kl, nil)+"\" { "+key+" = 2 }\n def q { z = "+id+" } }")
+		}
+	}
 	add("domain_division", "", "print 1/0")
 	add("domain_division", "", "print 1.5/0")
 	add("domain_division", "", "print 1/0.0")
@@ -682,7 +703,7 @@ func init() {
 		Rule: "crash/termination monitor in journalled worker processes: every input goes through Parse+Execute (VM hook: executed instructions <= instructions in the program, pc inside the code), Interpret, Unmarshal and one of ParseFile/InterpretFile/UnmarshalFile (a goroutine panic kills the worker; the parent finds the case in the journal and re-runs it alone). " +
 			"Inputs: fixed lists (limit scaling around operand depth 1024, 1024 locals, 16 nested blocks, paren nesting to 10^4, jump distance 65528..65542 sized exactly in code bytes; invalid and extreme literals in 8 contexts; out-of-domain operands incl. negative repeat counts and block values on every operator; every single-byte and single-token damage of 6 seed programs) " +
 			"and random ones (bytes, text soup, token sequences, generated programs with byte/token damage, hostile layout). A per-case watchdog identifies deadlocks from goroutine dumps. " +
-			"distinct = hash of input; non-trivial = the input compiled, or was rejected with a diagnostic Also: the operand stack filled to the limit by each kind of pushing instruction (constant, 0/1/true/false/nil shortcuts, variable read, field read, float, string) at depths 1016..1030 and after 1021..1024 variables; programs that reach the struct-binding layer of Unmarshal with an unexported tagged field in the target; every prefix of seed programs with multi-byte characters (input ending inside a character of a comment, string or stray character); files of another kind as source text (this library's bytecode dumps, gzip/ELF/zip/PNG/PDF headers, UTF-16 text, shebang lines, JSON, XML, YAML); a read handing out data together with a real error in a quarter of the file-variant calls; a program executed and dumped again after a Dump whose destination failed at its k-th write, for every k.",
+			"distinct = hash of input; non-trivial = the input compiled, or was rejected with a diagnostic Also: the operand stack filled to the limit by each kind of pushing instruction (constant, 0/1/true/false/nil shortcuts, variable read, field read, float, string) at depths 1016..1030 and after 1021..1024 variables; programs that reach the struct-binding layer of Unmarshal with an unexported tagged field in the target; every prefix of seed programs with multi-byte characters (input ending inside a character of a comment, string or stray character); files of another kind as source text (this library's bytecode dumps, gzip/ELF/zip/PNG/PDF headers, UTF-16 text, shebang lines, JSON, XML, YAML); a read handing out data together with a real error in a quarter of the file-variant calls; a program executed and dumped again after a Dump whose destination failed at its k-th write, for every k. Operators refusing hostile string operands (runs of continuation bytes, cut characters, 0xFF, NULs, format verbs, long multi-byte text); unresolved identifiers next to field and child keys of 1..300 bytes.",
 		Assumptions:   []string{"inputs whose legitimate result is a string beyond 2^16..2^20 bytes are skipped (property exclusion); nesting capped at 10^4"},
 		MinNontrivial: 1000,
 		Run: func(c *core.Ctx) {
